@@ -3,7 +3,8 @@
 mutant (one old->new edit per hunk, anchored on the hunk's context lines) so that the thorough tier replays it on every run."""
 import json, os, re, sys
 root = os.path.dirname(os.path.dirname(os.path.abspath(__file__)))
-args = [a for a in sys.argv[1:] if not a.startswith("--")]
+argv = sys.argv[1:]
+args = [a for k, a in enumerate(argv) if not a.startswith("--") and not (k > 0 and argv[k - 1] == "--prop")]
 seed, name, rule = args[0], args[1], args[2]
 fn = args[3] if len(args) > 3 else None
 prop = seed.split("-")[0]
